@@ -189,8 +189,10 @@ def get_operation_count(layer, input_shape):
 
     kernel_h, kernel_w, _, _ = weight_1.shape
 
+    # every output channel (channels_i * depth_multiplier of them) takes one
+    # kernel_h x kernel_w window per output position
     operation_count = (
-        kernel_h * kernel_w * height_o * width_o * channels_i)
+        kernel_h * kernel_w * height_o * width_o * channels_o)
 
   elif layer.__class__.__name__ in ["QDense", "Dense"]:
     output_shape = layer.compute_output_shape(input_shape)
